@@ -58,6 +58,23 @@ def sinks_strategy(prog, classes=VALID, max_sinks=3, allow_repeat=True):
     return strat()
 
 
+class _State:
+    log = ()
+
+    def clear(self):
+        pass
+
+
+class _Plain:
+    """Untraced stand-in with the attributes the sink builder uses (for out-of-process executors: a tracing store's
+    in-memory log cannot follow the task into another process)."""
+
+    def __new__(cls, store):
+        store.state = _State()
+        store._store = store
+        return store
+
+
 @dataclass
 class Target:
     sink: dict
@@ -70,7 +87,8 @@ class Target:
 
 
 class SinkCtx:
-    def __init__(self, trace_state=None, local_dir=None):
+    def __init__(self, trace_state=None, local_dir=None, traced=True):
+        self.traced = traced
         self.targets: list[Target] = []
         self.stores = []
         self._n = 0
@@ -86,7 +104,7 @@ class SinkCtx:
             import os
 
             p = os.path.join(self.local_dir, f"target{self._n}")
-            ts = TraceStore(LocalStore(p))
+            ts = TraceStore(LocalStore(p)) if self.traced else _Plain(LocalStore(p))
         else:
             ts = TraceStore(MemoryStore())
         self.stores.append(ts)
